@@ -1,19 +1,25 @@
 import Chain33Model.Base.Wire
 import Chain33Model.Model.C20
 import Chain33Model.Model.C25
-open Wire C25
+import Chain33Model.Model.C25Ext
+open Wire C25 C25X
 
 /-!
 Driver for C25/C26 (same op language as harness/cmd/h_c25):
   case <name> <fin> <margin> <rec> <gbits>   -> tip=0 h=0 td=<n>
   blk <id> <parent> <height> <bits> <salt> <txs>  -> ok
   deliver <id> | chain | td <id> | seqs | seqof <id> | isorphan <id> | tx <tag> | end
+  tick <sec> | finalize <id> | fin | restart | junk <n> | isjunk <k>      (extension layer, Model/C25Ext)
+`case` takes two optional trailing words `<maxOrphanBlocks> <orphanExpirationSeconds>` (read from
+orphanpool.go by the harness; default 10240 600).  Junk block `k` is an orphan that belongs to no
+tree: id 1000000+k, parent 2000000+k, height 5.
 Block ids on the wire are tree indices, 0 = genesis.  `diff` of a block is
 `C20.calcWork bits` (the model of difficulty.CalcWork, tied separately by C20).
 -/
 
 structure DState where
-  st : Option State
+  st : Option (XState (Std.HashMap Nat (Nat × Nat)))
+  junk : Nat := 0       -- junk orphans delivered so far
   blocks : List Block   -- declared blocks (wire id = Block.id)
   started : Bool        -- a delivery/observation happened: no more `blk`
 
@@ -50,15 +56,21 @@ def parseTxs (w : String) : Option (List Nat) :=
 
 def handle (d : DState) (line : String) : DState × String :=
   match words line with
-  | ["case", _, fin, margin, rec, gbits] =>
-    match fin.toNat?, margin.toNat?, gbits.toNat? with
-    | some f, some m, some gb =>
+  | "case" :: _ :: fin :: margin :: rec :: gbits :: rest =>
+    let lims : Option (Nat × Nat) := match rest with
+      | [] => some (10240, 600)
+      | [l, t] => match l.toNat?, t.toNat? with
+                  | some l, some t => some (l, t)
+                  | _, _ => none
+      | _ => none
+    match fin.toNat?, margin.toNat?, gbits.toNat?, lims with
+    | some f, some m, some gb, some (lim, ttl) =>
       if (rec == "0" || rec == "1") && gb < 2^32 then
         let g : Block := { id := 0, parent := 0, height := 0, diff := work gb }
-        let s := init f m (rec == "1") g
-        ({ st := some s, blocks := [g], started := false }, tipStr s)
+        let x := initX (Std.HashMap Nat (Nat × Nat)) f m (rec == "1") g lim ttl
+        ({ st := some x, blocks := [g], started := false }, tipStr x.base)
       else ({ d with st := none }, "bad-op")
-    | _, _, _ => ({ d with st := none }, "bad-op")
+    | _, _, _, _ => ({ d with st := none }, "bad-op")
   | ["blk", id, par, h, bits, salt, txs] =>
     match d.st, id.toNat?, par.toNat?, h.toNat?, bits.toNat?, salt.toNat?, parseTxs txs with
     | some _, some id, some par, some h, some bits, some _, some txs =>
@@ -68,33 +80,63 @@ def handle (d : DState) (line : String) : DState × String :=
     | _, _, _, _, _, _, _ => (d, "bad-op")
   | ["tx", tag] =>
     match d.st, tag.toNat? with
-    | some s, some t => ({ d with started := true }, optNat (s.txIdx t))
+    | some x, some t => ({ d with started := true }, optNat (x.base.txIdx t))
+    | _, _ => (d, "bad-op")
+  | ["tick", n] =>
+    match d.st, n.toNat? with
+    | some x, some n => ({ d with st := some (tick x n), started := true }, "ok")
+    | _, _ => (d, "bad-op")
+  | ["junk", n] =>
+    match d.st, n.toNat? with
+    | some x, some n =>
+      let x' := (List.range n).foldl (fun x k =>
+        (processBlockX x { id := 1000000 + d.junk + k, parent := 2000000 + d.junk + k, height := 5, diff := 1 }).1) x
+      ({ d with st := some x', junk := d.junk + n, started := true }, "ok")
+    | _, _ => (d, "bad-op")
+  | ["isjunk", k] =>
+    match d.st, k.toNat? with
+    | some x, some k => ({ d with started := true }, if isKnownOrphan x.base (1000000 + k) then "yes" else "no")
     | _, _ => (d, "bad-op")
   | [op, arg] =>
     match d.st, arg.toNat? with
-    | some s, some id =>
+    | some x, some id =>
       match d.blocks[id]? with
       | none => (d, "bad-op")
       | some b =>
         let d := { d with started := true }
+        let s := x.base
         if op == "deliver" then
           if id == 0 || b.height == 0 then (d, "bad-op") else
-          let (s', r) := processBlock s b
-          ({ d with st := some s' }, resStr r ++ " " ++ tipStr s')
+          let (x', r) := processBlockX x b
+          ({ d with st := some x' }, resStr r ++ " " ++ tipStr x'.base)
+        else if op == "finalize" then
+          let s' := finalize s b.height b.id
+          ({ d with st := some { x with base := s' } }, s!"fin={s'.fin}")
         else if op == "td" then (d, optNat (s.tds id))
         else if op == "seqof" then (d, optNat (s.hashSeq id))
         else if op == "isorphan" then (d, if isKnownOrphan s id then "yes" else "no")
         else (d, "bad-op")
     | _, _ => (d, "bad-op")
+  | ["fin"] =>
+    match d.st with
+    | some x => ({ d with started := true }, s!"fin={x.base.fin}")
+    | none => (d, "bad-op")
+  | ["restart"] =>
+    match d.st with
+    | some x =>
+      match restartX x with
+      | some x' => ({ d with st := some x', started := true }, tipStr x'.base)
+      | none => ({ d with st := none }, "panic")
+    | none => (d, "bad-op")
   | ["chain"] =>
     match d.st with
-    | some s =>
+    | some x =>
       ({ d with started := true },
-        ",".intercalate ((mainChain s).map idStr) ++ (if cleanAbove s then " clean" else " dirty"))
+        ",".intercalate ((mainChain x.base).map idStr) ++ (if cleanAbove x.base then " clean" else " dirty"))
     | none => (d, "bad-op")
   | ["seqs"] =>
     match d.st with
-    | some s => ({ d with started := true }, seqStr s)
+    | some x => ({ d with started := true }, seqStr x.base)
     | none => (d, "bad-op")
   | ["end"] =>
     match d.st with
